@@ -8,6 +8,7 @@ pub mod c06;
 pub mod c07;
 pub mod c08;
 pub mod c09;
+pub mod c09t;
 pub mod c10;
 pub mod c11;
 pub mod c12;
